@@ -107,7 +107,9 @@ def _work(H, chunk):
             outs = {}
             for (style, e2, l2, fl) in variants:
                 try:
-                    got = _norm(e2, _call(H, style, e2, css, tnode, rev, l2, nsmap, custom, fl), idmap)
+                    got = _norm(e2, common.guard(lambda: _call(H, style, e2, css, tnode, rev, l2, nsmap, custom, fl), 30), idmap)
+                except common.CallTimeout:
+                    got = {'err': 'no termination within 30 s'}
                 except Exception as ex:
                     got = {'err': type(ex).__name__}
                 ncalls += 1
